@@ -87,7 +87,11 @@ pub fn suite_c16(ctx: &mut Ctx) {
             ctx.call(ty, "from_f32", "m", &[w32]);
         }
         // elementary functions: hostile + lattice + random on every implemented function
-        let elems: Vec<&'static str> = match ty.n { 8 => vec!["exp", "ln"], 16 => ELEM16.to_vec(), _ => ELEM32.to_vec() };
+        let elems: Vec<&'static str> = match ty.n {
+            8 => vec!["exp", "ln", "asinh", "acosh"],
+            16 => { let mut v = ELEM16.to_vec(); v.extend(["asinh", "acosh", "to_degrees", "to_radians"]); v }
+            _ => ELEM32.to_vec(),
+        };
         for f in elems {
             for &a in &hs { ctx.call(ty, f, "m", &[a]); }
             for _ in 0..nrand * 2 {
